@@ -194,6 +194,58 @@ class Target:
         return self.baseline[key]
 
 
+FAMILY_BASE = '''grammar {A}
+ignore / +/
+start = (Wrap(Item) | Item)*
+Wrap(p) = ["<", p, ">"]
+Item = "a" | "b"
+'''
+FAMILY_EXT = '''grammar {B} extends {A}
+Wrap(p) = ["{{", p, "}}"] | super.Wrap(p)
+Item = "c" | super.Item
+'''
+
+
+class FamilyTarget(Target):
+    """A named base grammar and an extension of it, both long-lived and both used: compiling and
+    using the extension must not alter the base, and vice versa.  Baseline = the same call on a
+    freshly compiled family under fresh names."""
+
+    def __init__(self, which, texts, shared=None):
+        self.which = which
+        self.name = 'family-' + which
+        self.desc = FAMILY_BASE + '||' + FAMILY_EXT
+        if shared is None:
+            shared = self.compile_family()
+        self.family = shared
+        self.g = shared[0] if which == 'base' else shared[1]
+        self.calls = [(None, t, 0, True) for t in texts] + [(None, t, 1, False) for t in texts[:6] if len(t) > 1]
+        self.baseline = {}
+
+    @staticmethod
+    def compile_family():
+        a, b = diff.unique_name('vt_c18a'), diff.unique_name('vt_c18b')
+        r1 = observe.compile_grammar(FAMILY_BASE.format(A=a))
+        r2 = observe.compile_grammar(FAMILY_EXT.format(A=a, B=b))
+        sys.modules.pop(a, None)
+        sys.modules.pop(b, None)
+        if r1[0] != 'ok' or r2[0] != 'ok':
+            raise RuntimeError('C18 family does not compile: %r %r' % (r1, r2))
+        return r1[1], r2[1]
+
+    def fresh(self):
+        fam = self.compile_family()
+        return fam[0] if self.which == 'base' else fam[1]
+
+
+def family_texts(rng, n):
+    toks = ['a', 'b', 'c', '<a>', '<c>', '{a}', '{c}', '{ b }', '< b >', ' ']
+    out = []
+    for _ in range(n):
+        out.append(''.join(rng.choice(toks) for _ in range(rng.randint(0, 5))))
+    return out
+
+
 def outcome(g, call):
     """Everything a caller can observe: normalised value, error class, position (index, line,
     column), message text, and line/column of every span in the result."""
@@ -240,6 +292,10 @@ def targets(rec, quick):
     ts = [Target(HOOKED, hooked_texts(rng, n), ['Expr', 'Stmt', 'Term'], 'hooked'),
           Target(MEMO_HEAVY, memo_texts(rng, n), ['E', 'T'], 'memo'),
           Target(BYTES_G, bytes_texts(rng, n // 2), ['Rec'], 'bytes')]
+    ft = family_texts(rng, 30 if quick else 100)
+    base_t = FamilyTarget('base', ft)
+    ts.append(base_t)
+    ts.append(FamilyTarget('ext', ft, shared=base_t.family))
     for i in range(2 if quick else 6):
         G = gen.RandomGrammar(rng, maxdepth=rng.randint(2, 4)).grammar()
         if gen.well_formed(G):
